@@ -108,9 +108,12 @@ func record(search string, variant int, hist []regionx.Op, cp regionx.CrashPoint
 // judgeTransition enumerates and judges every crash image of one WriteSector transition.
 func judgeTransition(search string, variant int, hist []regionx.Op, pre []byte, preModel map[int][]byte, out *regionx.Outcome, coords [][2]int) {
 	op := out.Op
-	// the pre-state must itself satisfy the oracle, otherwise the defect belongs to C14, not to the crash
+	// stopping before the first physical write is a crash point too: if the pre-state already fails the oracle
+	// (a chunk other than the one being written does not read back), that is reported here, once, and the
+	// later crash points of this write are not judged (they would repeat it)
 	if fs, _ := regionx.JudgeImage(variant, pre, preModel, op.X, op.Z, out.Written, coords, "pre-state"); len(fs) > 0 {
 		atomic.AddInt64(&preBad, 1)
+		record(search, variant, hist, regionx.CrashPoint{}, out.Writes, fs)
 		return
 	}
 	atomic.AddInt64(&writesTr, 1)
@@ -322,7 +325,7 @@ func main() {
 	rep.Count("write_transitions_judged", writesTr)
 	rep.Count("images_reopened_with_Load", loads)
 	rep.Count("images_whose_Load_was_provably_identical_to_the_previous_one(header bytes equal, Load read only the header)", reused)
-	rep.Count("write_transitions_skipped_pre_state_already_inconsistent(C14 territory)", preBad)
+	rep.Count("write_transitions_whose_pre_state_already_failed_the_oracle(reported as crash point 0)", preBad)
 	rep.NonTrivial(nontriv)
 	rep.AddTraces(writesTr)
 	rep.Sample(Case{Variant: 0, Device: "mem+WriterAt", Search: "example", History: []regionx.Op{{K: "W", X: 1, Z: 0, Size: 4093}, {K: "W", X: 0, Z: 1, Size: 1}, {K: "W", X: 1, Z: 0, Size: 1}, {K: "W", X: 0, Z: 1, Size: 8189}},
